@@ -10,19 +10,5 @@ CONSTANTS
   MaxCalls = 100000
 CONSTRAINT Accept
 POSTCONDITION Post
-INVARIANT TypeOK
-INVARIANT AtLeastTwo
-INVARIANT StackShape
-INVARIANT HalveOnlyEvenGT2
-INVARIANT Progress
-INVARIANT NoLRAlongTwoCells
-INVARIANT DepthBound
-INVARIANT BottomExact
-INVARIANT NotBottomCanCoarsen
-INVARIANT HeaderShape
-INVARIANT CycmaxRule
-INVARIANT DocOrder
-INVARIANT DocDepth
-INVARIANT QCIsFirstCycle
 PROPERTY AdvanceOncePerCycle
 CHECK_DEADLOCK FALSE
